@@ -202,6 +202,123 @@ def collect_emitted_sources(ctx):
     return pairs
 
 
+
+# ---------------------------------------------------------------------------------------------------------------------
+# T3: comments in every documented position of a generated API reach the emitted docstrings; every emitted module parses
+
+TRICKY_ENDS = ['"', '\\', '"""', ' "quoted"', ' ends with a backslash \\', "'", ".", ":", " -", ""]
+
+
+def gen_comment(r, single_line=None):
+    """a plain comment (no formatting character: the fast path of rst(); pandoc is absent), as protoc hands it over:
+    one leading space per line, a final line break; one to six lines; tricky last characters"""
+    nl = 1 if single_line else (r.randint(2, 6) if single_line is False else r.pick([1, 1, 2, 3, 5]))
+    lines = []
+    for i in range(nl):
+        ws = [r.pick(PLAIN_WORDS) for _ in range(r.randint(1, 12))]
+        lines.append(" ".join(ws))
+    lines[-1] = lines[-1] + r.pick(TRICKY_ENDS)
+    text = "".join(" " + ln + "\n" for ln in lines)
+    return "".join(ch for ch in text if ch not in "|*`_[]")
+
+
+def build_documented_api(r):
+    """a small API whose service, methods, messages, fields, enum and enum values all carry comments (leading, trailing
+    or detached), returned with the list of (position, comment text the generator should use)"""
+    f = apigen.File("acme/lib/v1/lib.proto", "acme.lib.v1")
+    color = f.enum("Color", ["COLOR_UNSPECIFIED", "RED", "BLUE"])
+    book = f.msg("Book"); book.field("name"); book.field("pages", "int32"); book.field("color", "enum", type_name=color)
+    inner = book.nested("Edition"); inner.field("year", "int32")
+    g = f.msg("GetBookRequest"); g.field("name")
+    version = r.pick([None, None, "v1_20240930"])
+    s = f.service("Library", version=version)
+    s.method("GetBook", g, book, http=("get", "/v1/{name=books/*}"), sigs=["name"])
+    s.method("WatchBook", g, book, ss=True)
+    req = apigen.request([f], r.pick(["transport=grpc+rest", "transport=grpc", "transport=rest"]) + ",autogen-snippets=" + r.pick(["true", "false"]))
+    fd = [p for p in req.proto_file if p.name == "acme/lib/v1/lib.proto"][0]
+    # descriptor paths: 4=message_type, 2=field, 3=nested_type, 5=enum_type, 2=value, 6=service, 2=method
+    positions = {"service": [6, 0], "method:GetBook": [6, 0, 2, 0], "method:WatchBook": [6, 0, 2, 1], "message:Book": [4, 0],
+                 "field:Book.name": [4, 0, 2, 0], "field:Book.pages": [4, 0, 2, 1], "nested:Book.Edition": [4, 0, 3, 0],
+                 "field:Book.Edition.year": [4, 0, 3, 0, 2, 0], "message:GetBookRequest": [4, 1], "enum:Color": [5, 0],
+                 "enumvalue:Color.RED": [5, 0, 2, 1]}
+    used = []
+    for pos, path in positions.items():
+        if r.maybe(0.15) and pos != "service":
+            continue
+        loc = fd.source_code_info.location.add()
+        loc.path.extend(path)
+        how = r.pick(["leading", "leading", "leading", "trailing", "detached"])
+        text = gen_comment(r, single_line=(False if (pos == "service" and r.maybe(0.6)) else None))
+        if how == "leading":
+            loc.leading_comments = text
+        elif how == "trailing":
+            loc.trailing_comments = text
+        else:
+            loc.leading_detached_comments.append(text)
+            if r.maybe(0.3):
+                loc.leading_detached_comments.append(gen_comment(r))
+        used.append((pos, how, list(loc.leading_detached_comments) if how == "detached" else [text]))
+    return req, used, version
+
+
+def doc_words(text):
+    """the words a comment contributes to a docstring: rst() rewrites a triple double-quote and may add a full stop"""
+    return text.replace('"""', "'''").split()
+
+
+def t3_docstrings(ctx, r, n):
+    import ast as _ast
+    for i in range(n):
+        req, used, version = build_documented_api(r)
+        res, err = genrun.try_generate(req)
+        payload = {"fn": "docstrings", "comments": used, "params": req.parameter, "api_version": version}
+        ctx.case(None, distinct_key=["docstrings", json.dumps(used), req.parameter, version], nontrivial=True)
+        ctx.count("t3_docstrings", "apis")
+        if err is not None:
+            ctx.fail(f"docstrings-generation:{err[0]}", f"generation failed for a commented API: {err[1][:200]}", payload)
+            continue
+        docs = {}
+        bad = False
+        for f in res.file:
+            if not f.name.endswith(".py"):
+                continue
+            try:
+                tree = _ast.parse(f.content)
+            except SyntaxError as e:
+                kind = "client" if "/services/" in f.name else ("types" if "/types/" in f.name else ("samples" if "samples/" in f.name else "other"))
+                line = (f.content.split("\n")[e.lineno - 1] if e.lineno and e.lineno <= f.content.count("\n") + 1 else "")[:160]
+                ctx.fail(f"docstring-terminates-literal:{kind}", f"{f.name} does not parse ({e.msg}, line {e.lineno}: {line!r}): a comment ended a string literal early", dict(payload, file=f.name))
+                bad = True
+                continue
+            words = []
+            for node in _ast.walk(tree):
+                if isinstance(node, (_ast.Module, _ast.ClassDef, _ast.FunctionDef, _ast.AsyncFunctionDef)):
+                    d = _ast.get_docstring(node, clean=False)
+                    if d:
+                        words.append(d.split())
+            docs[f.name] = words
+        if bad:
+            continue
+        ctx.traces += 1
+        # every comment's words, in order and contiguous, in some docstring of the library (types module or service package)
+        lib_docs = [w for name, ws in docs.items() if "/lib_v1/" in name for w in ws]
+        for pos, how, texts in used:
+            for text in ("\n\n".join(texts),) if how == "detached" else texts:
+                want = doc_words(text)
+                if not want:
+                    continue
+                ctx.count("t3_docstring_position", pos.split(":")[0] + ":" + how)
+
+                def occurs(ws):
+                    for k in range(len(ws) - len(want) + 1):
+                        seg = ws[k:k + len(want)]
+                        if seg[:-1] == want[:-1] and seg[-1] in (want[-1], want[-1] + "."):
+                            return True
+                    return False
+                if not any(occurs(ws) for ws in lib_docs):
+                    ctx.fail("docstring-words:" + pos.split(":")[0], f"the words of the {how} comment of {pos} do not occur, in order, in any docstring of the emitted library: {want[:10]}…", dict(payload, position=pos))
+
+
 CORPUS_WRAP = [
     # (text, width, offset, indent) — §9-F5: a tab in a long first line
     ("alpha\tbeta gamma delta epsilon zeta eta theta iota kappa lambda mu nu xi omicron pi rho sigma tau", 40, None, 0),
@@ -311,6 +428,7 @@ def run(ctx):
                 ctx.fail(key, f"rst output cannot sit inside r\"\"\"…\"\"\": {impl[-30:]!r}", {"fn": "rst", "text": text, "width": width, "indent": b})
     # ---- fix_whitespace
     sources = []
+    t3_docstrings(ctx, ctx.rng("docstrings"), ctx.n(12, 150))
     pairs = collect_emitted_sources(ctx)
     for src, out in pairs:
         sources.append(("emitted", src))
